@@ -26,6 +26,7 @@ type c12Scen struct {
 	Rendezvous bool        `json:"first_request_of_client0_waits_for_first_of_client1"`
 	Preempt    int         `json:"preempt_permille"`
 	NoTrim     bool        `json:"trim_right_slash_off,omitempty"`
+	Options    bool        `json:"options_filter,omitempty"`
 	Svcs       []SvcSpec   `json:"services"` // Routes = initial routes followed by pool routes
 	InitR      map[int]int `json:"initial_route_count"`
 	Members    []int       `json:"initial_members"`
@@ -212,6 +213,18 @@ func genC12(x *Ctx) *c12Scen {
 		sc.Clients = append(sc.Clients, ps)
 	})
 	sc.NoTrim = tp.Chance(100)
+	if tp.Chance(250) {
+		// the container's OPTIONS filter, and a share of the requests asking it: it reads services and
+		// routes under the same locks the admin tasks write under
+		sc.Options = true
+		for _, ps := range sc.Clients {
+			for i := range ps {
+				if tp.Chance(450) {
+					ps[i].Method = "OPTIONS"
+				}
+			}
+		}
+	}
 	return sc
 }
 
@@ -223,7 +236,7 @@ func runC12(x *Ctx) {
 	s := x.Sim
 	s.Preempt = sc.Preempt
 
-	w := &World{Svcs: sc.Svcs, Router: sc.Router, Reentrant: sc.Reentrant, Recover: sc.Recover}
+	w := &World{Svcs: sc.Svcs, Router: sc.Router, Reentrant: sc.Reentrant, Recover: sc.Recover, Options: sc.Options}
 	for i, pat := range c12Plain {
 		w.Plains = append(w.Plains, PlainSpec{ID: i, Pattern: pat, WithFilter: i%2 == 1})
 	}
@@ -372,8 +385,33 @@ func runC12(x *Ctx) {
 	}
 	overlap := false
 	sensitive := 0
-	for _, h := range all {
+	for hi, h := range all {
 		if h.Probe == nil || h.Exempt {
+			continue
+		}
+		// An OPTIONS request answered by the OPTIONS filter reads the registration in several steps (the
+		// mux, the list of services, each service's routes): while an admin operation overlaps it, it is
+		// judged against the reachable states only, under a class of its own (known finding F11), and
+		// left out of the linearizability history.
+		optOverlap := false
+		if sc.Options && h.Probe.Method == "OPTIONS" {
+			for _, g := range all {
+				if g.Admin != nil && g.Call < h.Ret && h.Call < g.Ret {
+					optOverlap = true
+				}
+			}
+		}
+		if optOverlap {
+			all[hi].Exempt = true
+			x.Count("relaxed:options-request-overlapping-admin-op")
+			outs := map[string]bool{}
+			for _, st := range reach {
+				outs[ref.Outcome(st, sc.entry, *h.Probe).Key()] = true
+			}
+			if !outs[h.Out] {
+				x.Violate("options-answer-from-no-state", "OPTIONS filter and a concurrent registration change: request OPTIONS %s via %s got %s, which no reachable registration state produces (%d states)", h.Probe.Path, sc.Entry, h.Out, len(reach))
+			}
+			overlap = true
 			continue
 		}
 		outs := map[string]bool{}
